@@ -1,3 +1,7 @@
 def geo(k, base, kmin=6, floor=6):
     """case count for stratum log2 N = k: `base` up to 2^kmin, halving per extra bit, never below floor"""
     return max(floor, base >> max(0, k - kmin))
+
+# link flags + extra source for the allocation tracker (engine/alloc_track.cpp)
+WRAP_FLAGS = ["-Wl,--wrap=malloc,--wrap=calloc,--wrap=realloc,--wrap=aligned_alloc,--wrap=posix_memalign,--wrap=free"]
+WRAP_SRCS = ["engine/alloc_track.cpp"]
